@@ -143,6 +143,14 @@ func (m *udpModel) flush() bool {
 }
 
 func c15Sequence(c *mon.Ctx, seq []int, r *mon.Rand, enumerated bool) {
+	wdNames := make([]string, len(seq))
+	for i, op := range seq {
+		wdNames[i] = opNames[op]
+	}
+	// every transport call returns: a call that is still running after a
+	// minute (they take microseconds) is a violation, not a hung check
+	stopW := c.Watchdog(60*time.Second, "transport-call-does-not-return", map[string]interface{}{"sequence": wdNames})
+	defer stopW()
 	sink, err := mon.NewSink()
 	if err != nil {
 		c.Inconclusive("sink: " + err.Error())
@@ -358,6 +366,8 @@ func head(b []byte) []byte {
 // c15Multi: with no failing destination every destination sees the same
 // datagram sequence; Close is idempotent; use after Close is a not-open error.
 func c15Multi(c *mon.Ctx, r *mon.Rand) {
+	stopW := c.Watchdog(60*time.Second, "transport-call-does-not-return", "multi-destination transport run")
+	defer stopW()
 	n := r.Range(1, 3)
 	var sinks []*mon.Sink
 	var addrs []string
@@ -472,6 +482,8 @@ func c15Multi(c *mon.Ctx, r *mon.Rand) {
 
 // c15Reporter: reporter-level fault sequences.
 func c15Reporter(c *mon.Ctx, r *mon.Rand) {
+	stopW := c.Watchdog(120*time.Second, "transport-call-does-not-return", "reporter-level fault sequence")
+	defer stopW()
 	switch r.Intn(3) {
 	case 0:
 		c15ReporterDeadPort(c, r)
@@ -698,6 +710,8 @@ func c15ReporterOversize(c *mon.Ctx, r *mon.Rand) {
 // WriteString and flushes; every flush must still send exactly the bytes
 // written since the previous one.
 func c15Duplex(c *mon.Ctx, r *mon.Rand) {
+	stopW := c.Watchdog(120*time.Second, "transport-call-does-not-return", "full-duplex run")
+	defer stopW()
 	sink, err := mon.NewSinkReply([]byte("rrrrrrrr"), r.Range(1, 4))
 	if err != nil {
 		c.Inconclusive("sink: " + err.Error())
